@@ -189,6 +189,8 @@ var mutantCatalogue = map[string][]mutant{
 		{Name: "pending write deleted outright", File: "risc/app.go", Old: "\t\tctx.PendingWriteRegisters[register]--\n\t\tif ctx.PendingWriteRegisters[register] <= 0 {\n\t\t\tdelete(ctx.PendingWriteRegisters, register)\n\t\t}\n\t}\n}\n\n// IsWriteDataHazard", New: "\t\tdelete(ctx.PendingWriteRegisters, register)\n\t}\n}\n\n// IsWriteDataHazard"},
 	},
 	"C05": {
+		{Name: "load miss taken for a hit", File: "proc/mvp6-2/eu.go", Old: "} else if exists {", New: "} else if !exists {"},
+		{Name: "store routed to the cache when the line is ABSENT", File: "proc/mvp6-3/eu.go", Old: "if execution.MemoryChange && u.mmu.doesExecutionMemoryChangesExistsInL3(execution) {", New: "if execution.MemoryChange && !u.mmu.doesExecutionMemoryChangesExistsInL3(execution) {"},
 		{Name: "miss path runs the load on stale bytes", File: "proc/mvp6-2/eu.go", Old: "\t\t\t\tu.memory = m\n", New: "\t\t\t\t_ = m\n"},
 		{Name: "final write-back skips the evicted-from-L3 case", File: "proc/mvp8-0/cc.go", Old: "\t\t\tadditionalCycles += latency.MemoryAccess\n\t\t\tcc.mmu.writeToMemory(line.Boundary[0], line.Data)\n", New: "\t\t\tadditionalCycles += latency.MemoryAccess\n"},
 		{Name: "L3 miss snapshots the line at issue", File: "proc/mvp6-3/eu.go", Old: "\t\t\tu.Checkpoint(func(r euReq) euResp {\n\t\t\t\tif remainingCycles > 0 {\n\t\t\t\t\tlog.Infoi(r.ctx, \"EU\", u.runner.Runner.InstructionType(), u.runner.Pc, \"pending memory access %d\", remainingCycles)\n\t\t\t\t\tremainingCycles--\n\t\t\t\t\treturn euResp{}\n\t\t\t\t}\n\t\t\t\tline := u.mmu.fetchCacheLine(addrs[0])\n", New: "\t\t\tline := u.mmu.fetchCacheLine(addrs[0])\n\t\t\tu.Checkpoint(func(r euReq) euResp {\n\t\t\t\tif remainingCycles > 0 {\n\t\t\t\t\tlog.Infoi(r.ctx, \"EU\", u.runner.Runner.InstructionType(), u.runner.Pc, \"pending memory access %d\", remainingCycles)\n\t\t\t\t\tremainingCycles--\n\t\t\t\t\treturn euResp{}\n\t\t\t\t}\n"},
@@ -222,6 +224,7 @@ var mutantCatalogue = map[string][]mutant{
 		{Name: "latency read from a global counter", File: "proc/comp/cache.go", Old: "func (c *LRUCache) Lines() []Line {", New: "func (c *LRUCache) Skew() int {\n\treturn Delta % 2\n}\n\nfunc (c *LRUCache) Lines() []Line {"},
 	},
 	"C10": {
+		{Name: "store goes around a resident line", File: "proc/mvp4/eu.go", Old: "if execution.MemoryChange && eu.mmu.doesExecutionMemoryChangesExistsInL1D(execution) {", New: "if execution.MemoryChange && !eu.mmu.doesExecutionMemoryChangesExistsInL1D(execution) {"},
 		{Name: "load data never reaches Run", File: "proc/mvp8-0/eu.go", Old: "\t\t\tu.memory = resp.data\n", New: ""},
 		{Name: "reader admitted beside a writer", File: "proc/comp/semaphore.go", Old: "func (s *Sem) RLock() bool {\n\tif s.write > 0 {\n\t\treturn false\n\t}\n", New: "func (s *Sem) RLock() bool {\n"},
 		{Name: "write unit forgets the store", File: "proc/mvp6-1/wu.go", Old: "\t\t\tr.ctx.WriteMemory(u.memoryWrite.Execution)\n", New: ""},
